@@ -6,9 +6,11 @@
 use duke::tree::annotation::{Annotation, ElementValue, Object};
 use duke::tree::class::{ClassName, EnclosingMethod, InnerClass};
 use duke::tree::method::MethodParameter;
+use duke::tree::method::code::{Label, LabelRange};
 use duke::tree::module::PackageName;
+use duke::tree::type_annotation::{TargetInfoClass, TargetInfoCode, TargetInfoField, TargetInfoMethod, TypeAnnotation, TypePath};
 use java_string::JavaStr;
-use crate::rec::cksum;
+use crate::rec::{cksum, dbg_fields, dbg_list, Pos};
 
 pub fn ck(s: &JavaStr) -> u64 { cksum(&s.to_modified_utf8()) }
 
@@ -69,5 +71,89 @@ pub fn canon_packages(l: &[PackageName]) -> Vec<u64> { std::iter::once(l.len() a
 pub fn canon_parameters(l: &[MethodParameter]) -> Vec<u64> {
 	let mut out = vec![l.len() as u64];
 	for p in l { opt(p.name.as_ref().map(|x| x.as_inner()), &mut out); out.push(u16::from(p.flags) as u64); }
+	out
+}
+
+// ---------------------------------------------------------------- type annotations (coq/C17/Values.v: canon_type_annotations)
+// target_type and the fields of target_info as the JVMS lays them out (table 4.7.20-A/B, written here independently of
+// duke's class_constants.rs), from the TargetInfo* VARIANT the visitor was handed; then the type path; then the annotation.
+
+/// `TypePath { path: [ArrayDeeper, TypeArgument { index: 2 }] }`: its one field is crate-private, so it is read off `{:?}`
+pub fn canon_type_path(tp: &TypePath, out: &mut Vec<u64>) {
+	let dbg = format!("{tp:?}");
+	let items = dbg_fields(&dbg).into_iter().find(|(n, _)| n == "path").map(|(_, v)| dbg_list(&v)).unwrap_or_default();
+	out.push(items.len() as u64);
+	for it in items {
+		let (k, i) = match it.as_str() {
+			"ArrayDeeper" => (0, 0), "NestedDeeper" => (1, 0), "WildcardBound" => (2, 0),
+			t if t.starts_with("TypeArgument") => (3, dbg_fields(t).into_iter().find(|(n, _)| n == "index").and_then(|(_, v)| v.trim().parse::<u64>().ok()).unwrap_or(u64::MAX)),
+			_ => (u64::MAX, 0),
+		};
+		out.extend([k, i]);
+	}
+}
+
+pub trait TargetNums { fn nums(&self, out: &mut Vec<u64>); }
+impl TargetNums for TargetInfoClass {
+	fn nums(&self, out: &mut Vec<u64>) {
+		match self {
+			TargetInfoClass::ClassTypeParameter { index } => out.extend([0x00, *index as u64]),
+			TargetInfoClass::Extends => out.extend([0x10, 65535]),
+			TargetInfoClass::Implements { index } => out.extend([0x10, *index as u64]),
+			TargetInfoClass::ClassTypeParameterBound { type_parameter_index, bound_index } => out.extend([0x11, *type_parameter_index as u64, *bound_index as u64]),
+		}
+	}
+}
+impl TargetNums for TargetInfoField {
+	fn nums(&self, out: &mut Vec<u64>) { match self { TargetInfoField::Field => out.push(0x13) } }
+}
+impl TargetNums for TargetInfoMethod {
+	fn nums(&self, out: &mut Vec<u64>) {
+		match self {
+			TargetInfoMethod::MethodTypeParameter { index } => out.extend([0x01, *index as u64]),
+			TargetInfoMethod::MethodTypeParameterBound { type_parameter_index, bound_index } => out.extend([0x12, *type_parameter_index as u64, *bound_index as u64]),
+			TargetInfoMethod::Return => out.push(0x14),
+			TargetInfoMethod::Receiver => out.push(0x15),
+			TargetInfoMethod::FormalParameter { index } => out.extend([0x16, *index as u64]),
+			TargetInfoMethod::Throws { index } => out.extend([0x17, *index as u64]),
+		}
+	}
+}
+pub fn canon_type_annotations<T: TargetNums>(l: &[TypeAnnotation<T>]) -> Vec<u64> {
+	let mut out = vec![l.len() as u64];
+	for a in l { a.type_reference.nums(&mut out); canon_type_path(&a.type_path, &mut out); canon_annotation(&a.annotation, &mut out); }
+	out
+}
+
+/// a number of a value that may depend on where a label sits: resolved to bytecode offsets when the case is printed
+#[derive(Clone, Debug, PartialEq)]
+pub enum ValN { N(u64), At(Pos), Len(Pos, Pos) }
+
+/// inside Code the target info speaks of labels: a label as the bytecode offset it stands for, a range as start_pc and length
+pub fn canon_code_type_annotations(l: &[TypeAnnotation<TargetInfoCode>], at: &dyn Fn(&Label) -> Pos, range: &dyn Fn(&LabelRange) -> (Pos, Pos)) -> Vec<ValN> {
+	let mut out = vec![ValN::N(l.len() as u64)];
+	for a in l {
+		let n = |x: u64| ValN::N(x);
+		match &a.type_reference {
+			TargetInfoCode::LocalVariable { table } | TargetInfoCode::ResourceVariable { table } => {
+				out.push(n(if matches!(a.type_reference, TargetInfoCode::LocalVariable { .. }) { 0x40 } else { 0x41 }));
+				out.push(n(table.len() as u64));
+				for (r, idx) in table { let (s, e) = range(r); out.extend([ValN::At(s), ValN::Len(s, e), n(idx.index as u64)]); }
+			}
+			TargetInfoCode::ExceptionParameter { index } => out.extend([n(0x42), n(*index as u64)]),
+			TargetInfoCode::InstanceOf(l) => out.extend([n(0x43), ValN::At(at(l))]),
+			TargetInfoCode::New(l) => out.extend([n(0x44), ValN::At(at(l))]),
+			TargetInfoCode::ConstructorReference(l) => out.extend([n(0x45), ValN::At(at(l))]),
+			TargetInfoCode::MethodReference(l) => out.extend([n(0x46), ValN::At(at(l))]),
+			TargetInfoCode::Cast { label, index } => out.extend([n(0x47), ValN::At(at(label)), n(*index as u64)]),
+			TargetInfoCode::ConstructorInvocationTypeArgument { label, index } => out.extend([n(0x48), ValN::At(at(label)), n(*index as u64)]),
+			TargetInfoCode::MethodInvocationTypeArgument { label, index } => out.extend([n(0x49), ValN::At(at(label)), n(*index as u64)]),
+			TargetInfoCode::ConstructorReferenceTypeArgument { label, index } => out.extend([n(0x4a), ValN::At(at(label)), n(*index as u64)]),
+			TargetInfoCode::MethodReferenceTypeArgument { label, index } => out.extend([n(0x4b), ValN::At(at(label)), n(*index as u64)]),
+		}
+		let mut rest = vec![];
+		canon_type_path(&a.type_path, &mut rest); canon_annotation(&a.annotation, &mut rest);
+		out.extend(rest.into_iter().map(ValN::N));
+	}
 	out
 }
